@@ -3,6 +3,7 @@ package an
 import (
 	"fmt"
 	"go/token"
+	"go/types"
 	"sort"
 	"strings"
 
@@ -452,4 +453,76 @@ func optionCases(p *Prog, fn *ssa.Function) int {
 		}
 	}
 	return len(set)
+}
+
+// c19QueueLengths: C19.6 — wherever a message queue is (re)built, its capacity is the
+// queue-length option value that the same object reports through GetOption: the value
+// stored into the matching …QLen field in the same function, or a load of a …QLen field.
+func c19QueueLengths(p *Prog, r *Report) {
+	R := "C19.6/queue-length-agrees"
+	r.Describe(R, "every make(chan *Message, N) stored into a recvQ/sendQ field uses the N that the object's …QLen option field holds (the value GetOption reports is the capacity actually in force)")
+	n := 0
+	for _, fn := range p.Funcs {
+		rel, _ := p.FuncRel(fn)
+		if !strings.HasPrefix(rel, "protocol/") {
+			continue
+		}
+		evs := p.Events(fn)
+		for _, e := range evs {
+			if e.Kind != "store" || !strings.HasPrefix(e.Args[0], "make(chan,") {
+				continue
+			}
+			i := strings.LastIndex(e.What, ".")
+			if i < 0 {
+				continue
+			}
+			base, fld := e.What[:i], e.What[i+1:]
+			lf := strings.ToLower(fld)
+			if lf != "recvq" && lf != "sendq" {
+				continue
+			}
+			// only queues whose owner has a matching …Len option field
+			hasLen := false
+			if st, ok := e.In.(*ssa.Store); ok {
+				if fa, ok := st.Addr.(*ssa.FieldAddr); ok {
+					if pt, ok := fa.X.Type().Underlying().(*types.Pointer); ok {
+						if stt, ok := pt.Elem().Underlying().(*types.Struct); ok {
+							for k := 0; k < stt.NumFields(); k++ {
+								if strings.EqualFold(stt.Field(k).Name(), fld+"Len") {
+									hasLen = true
+								}
+							}
+						}
+					}
+				}
+			}
+			if !hasLen {
+				continue
+			}
+			n++
+			capExpr := strings.TrimSuffix(strings.TrimPrefix(e.Args[0], "make(chan,"), ")")
+			key := p.FuncName(fn) + "/" + e.What
+			// (a) same-base …Len store in this function
+			var lenVal string
+			for _, e2 := range evs {
+				if e2.Kind == "store" && strings.HasPrefix(e2.What, base+".") && strings.EqualFold(e2.What[len(base)+1:], fld+"Len") {
+					lenVal = e2.Args[0]
+				}
+			}
+			ok := false
+			how := ""
+			switch {
+			case lenVal != "":
+				ok = lenVal == capExpr
+				how = "capacity " + capExpr + " vs " + fld + "Len = " + lenVal + " stored in the same function"
+			default:
+				j := strings.LastIndex(capExpr, ".")
+				ok = j >= 0 && strings.HasSuffix(strings.ToLower(capExpr[j+1:]), "qlen")
+				how = "capacity " + capExpr
+			}
+			r.Check(ok, R, key, p.InstrPos(e.In), how, "a message queue is built with a capacity that is not the object's queue-length option ("+how+"): GetOption reports one length while another is in force")
+		}
+	}
+	r.Count("c19.queue_constructions", n)
+	r.Floor(R, "c19.queue_constructions", 20)
 }
